@@ -189,11 +189,27 @@ def check_solver(cfg, acc):
                     Apos = np.stack([np.asarray(dpos @ Jp[i]) for i in range(Jp.shape[0])], 1)
                     Amom = np.stack([np.asarray(dmom @ Jp[i]) for i in range(Jp.shape[0])], 1)
                     dq, dp = xq - pos_u, xp - mom_u
-                    lam, *_ = np.linalg.lstsq(Apos, -dq, rcond=None)
+                    # one multiplier vector must explain BOTH corrections: joint least squares on
+                    # the two equations, each scaled to unit size (for a heavy metric the
+                    # position equation alone determines lam only to a few digits)
+                    sgn = np.sign(dt)
+                    a1 = float(np.max(np.abs(Apos))) or 1.0
+                    a2 = float(np.max(np.abs(Amom))) or 1.0
+                    lam, *_ = np.linalg.lstsq(np.vstack([Apos / a1, -sgn * Amom / a2]),
+                                              np.concatenate([-dq / a1, dp / a2]), rcond=None)
                     r1 = float(np.max(np.abs(Apos @ lam + dq)))
-                    r2 = float(np.max(np.abs(-np.sign(dt) * (Amom @ lam) - dp)))
-                    sc = 1.0 + float(np.max(np.abs(dq)))
-                    if r1 > 1e-9 * sc or r2 > 1e-8 * sc:
+                    r2 = float(np.max(np.abs(-sgn * (Amom @ lam) - dp)))
+                    lmax = float(np.max(np.abs(lam))) if lam.size else 0.0
+                    sc = 1.0 + float(np.max(np.abs(dq))) + a1 * lmax
+                    scp = 1.0 + float(np.max(np.abs(dp))) + float(np.max(np.abs(mom_u))) \
+                        + a2 * lmax
+                    # rounding of the stored position (eps |q|) leaves lam uncertain by
+                    # eps |q| / a1, which shows in the momentum equation scaled by a2 (and vice
+                    # versa): the noise floor of this inference, dominant for extreme metrics
+                    eps_ = 2.3e-16
+                    floor2 = 50 * a2 * eps_ * (1.0 + float(np.max(np.abs(xq)))) / a1
+                    floor1 = 50 * a1 * eps_ * (1.0 + float(np.max(np.abs(xp)))) / a2
+                    if r1 > 1e-9 * sc + floor1 or r2 > 1e-8 * scp + floor2:
                         viol("solver", "correction_not_in_lagrange_form",
                              {"pos_residual": r1, "mom_residual": r2}, "both ~ 0", dt=dt,
                              state=si, kwargs=kw, push=push)
@@ -216,12 +232,13 @@ def configs(tier, seed):
     quick = tier == "quick"
     cfgs = []
     sysc = zoo.system_configs(seed, tier, families=("constrained", "gaussian_constrained"),
-                              all_convs=False, dims=(2, 3))
+                              all_convs=False, dims=(2, 3), derived_metrics=True)
     for sc in sysc:
         if quick and sc["target"] != "quartic":
             continue
         if quick and sc["metric"] not in ("none", "identity", "dense_pd", "pos_diagonal",
-                                          "low_rank_downdate", "softabs"):
+                                          "low_rank_downdate", "softabs",
+                                          "derived_heavy_identity", "derived_scaled_inv_dense"):
             continue
         for solver in izoo.PROJ_SOLVERS:
             cfgs.append({"mode": "solver", "system": sc, "solver": solver})
